@@ -36,7 +36,7 @@ from pathlib import Path
 from src.core.base import BaseLintContext, BaseLintRule
 from src.core.linter_utils import should_process_file
 from src.core.types import Violation
-from src.linter_config.ignore import IgnoreDirectiveParser
+from src.linter_config.ignore import IgnoreDirectiveParser, get_ignore_parser
 
 from .config import DRYConfig
 from .config_loader import ConfigLoader
@@ -224,7 +224,8 @@ class DRYRule(BaseLintRule):  # pylint: disable=too-many-instance-attributes
             return []
 
         # Create ignore context for violation filtering
-        ignore_parser = IgnoreDirectiveParser(self._project_root)
+        # The project's parser (the one the orchestrator has given the configuration's ignore list)
+        ignore_parser = get_ignore_parser(self._project_root)
         ignore_ctx = IgnoreContext(
             inline_ignore=self._helpers.inline_ignore,
             shared_parser=ignore_parser,
